@@ -77,8 +77,8 @@ func c15Domain(tier string) []gv {
 		vals := intVals(lo, hi)
 		if tier == "quick" {
 			// quick: a representative subset per kind (still every kind, still the edges)
-			keep := map[string]bool{k.lo: true, k.hi: true, "0": true, "1": true, "-1": true, "2": true, "10": true, "9": true,
-				"9007199254740993": true, "256": true, "128": true}
+			keep := map[string]bool{k.lo: true, k.hi: true, "0": true, "1": true, "-1": true, "10": true, "9": true,
+				"9007199254740993": true}
 			var v2 []string
 			for _, v := range vals {
 				if keep[v] {
@@ -94,12 +94,15 @@ func c15Domain(tier string) []gv {
 	f64 := []float64{0, 1, -1, 0.5, -0.5, 1.5, -1.5, 2, 10, 9, 100, 127, 128, 255, 256, 1e6, 123456, 1234567,
 		9007199254740992, 9007199254740994, -9007199254740992, 0.25, 1e-5, 65535.5, 4294967296, 1e21}
 	if tier == "quick" {
-		f64 = []float64{0, 1, -1, 0.5, 1.5, -1.5, 2, 10, 9, 256, 1e6, 9007199254740992, 0.25}
+		f64 = []float64{0, 1, -1, 0.5, 1.5, -1.5, 10, 9, 1e6, 9007199254740992}
 	}
 	for _, f := range f64 {
 		d = append(d, gv{"float64", strconv.FormatFloat(f, 'x', -1, 64)})
 	}
 	f32 := []float32{0, 1, -1, 0.5, 1.5, -1.5, 2, 10, 256, 16777216}
+	if tier == "quick" {
+		f32 = []float32{0, 1, -1.5, 10, 16777216}
+	}
 	for _, f := range f32 {
 		d = append(d, gv{"float32", strconv.FormatFloat(float64(f), 'x', -1, 32)})
 	}
